@@ -26,7 +26,7 @@ Definition call_toks (c : call) : list tok :=
   match c with
   | ASync t _ | ASend t | ASendRaw t | AQuery t | AOQuery t _ | ASearch t _ | AOSearch t _
   | AGhba t _ | AGni t _ _ | AGai t _ _ _ _ | AGhbn t _ _ _ _ => [t]
-  | ACancel | ANop => []
+  | ACancel | ASetServers | ANop => []
   end.
 Definition calls_toks (l : list call) : list tok := flat_map call_toks l.
 Definition futr (s : state) : list tok := flat_map (fun p => calls_toks (snd p)) (st_scripts s).
